@@ -136,9 +136,28 @@ def spec_step(m, st, roles, x):
                 j = i + s
                 lin = F.mk("add", q[i], F.mk("div", F.mk("mul", sf, F.mk("sub", q[j], q[i], m.fctx), m.fctx),
                                              f(Lin.lift(n[j]) - Lin.lift(n[i])), m.fctx), m.fctx)
+                # Lemma (over the reals): for a <= b and an integer d with |d| >= 1 the linear step
+                # a + (b - a)/|d| lies in [a, b].  The guard gives |n_j - n_i| > 1; a <= b is asked of
+                # the order store.  The facts are recorded for the sortedness argument (R-SORTED).
+                lo, hi = (q[i], q[j]) if s == 1 else (q[j], q[i])
+                dn_ = simp(Lin.lift(n[j]) - Lin.lift(n[i]))
+                far = (isinstance(dn_, int) and abs(dn_) >= 1) or m.ienv.cmp("Ge" if s == 1 else "Le", dn_, s) is True
+                if far and m.order.decide("Le", lo, hi) is True:
+                    try:
+                        m.order.set_nan(lin, False)
+                        m.order.assume("Le", lo, lin, True)
+                        m.order.assume("Le", lin, hi, True)
+                    except Exception:
+                        pass
                 q[i] = lin
             n[i] = simp(Lin.lift(n[i]) + s)
-    return {"q": q, "n": n, "m": mm, "dm": dm}
+    sorted_pairs = []
+    for i in range(4):
+        try:
+            sorted_pairs.append(m.order.decide("Le", q[i], q[i + 1]) is True)
+        except Exception:
+            sorted_pairs.append(False)
+    return {"q": q, "n": n, "m": mm, "dm": dm, "sorted": sorted_pairs}
 
 
 def spec_truth(m, op, a, b):
@@ -197,7 +216,7 @@ def state_of(v, roles):
     return {r: list(fs[roles[r]].elems) for r in ("q", "n", "m", "dm")}
 
 
-def r_p2_step(ctx, db, est, roles, only=None, rule="R-P2", label="", max_paths=6000):
+def r_p2_step(ctx, db, est, roles, only=None, rule="R-P2", label="", max_paths=6000, sorted_rule=False):
     """for every abstract path of add() on a state with >= 5 observations, the final state equals
     the specification step.  `only`: restrict the comparison to some (role, index) leaves."""
     addp = est.add
@@ -268,6 +287,14 @@ def r_p2_step(ctx, db, est, roles, only=None, rule="R-P2", label="", max_paths=6
                 ctx.ob(rule, "step" + label, addp, fsite, True,
                        "final markers equal the specified step (%d non-identical height leaves compared as rational functions) [path: %s]" % (len(fl_pairs), pcs),
                        sample={"path_condition": pcs})
+                if sorted_rule:
+                    sp_ = want.get("sorted", [])
+                    oks = all(sp_) and len(sp_) == 4
+                    ctx.ob("R-SORTED", "heights-non-decreasing" + label, addp, fsite, oks,
+                           ("after the step the marker heights are non-decreasing (extremes are min/max, accepted parabolic predictions lie strictly "
+                            "between their neighbours, linear steps between the marker and its neighbour) [path: %s]" % pcs) if oks else
+                           "sortedness of the heights after the step is not established for pairs %s [path: %s]" % ([i for i, o in enumerate(sp_) if not o], pcs),
+                           inc=not oks)
         elif p.status == "panic":
             if is_debug_only(p.info.get("span") or {}):
                 continue
@@ -443,6 +470,24 @@ def r_small_quantile(ctx, db, est, roles, grid):
                 raw = outside_sorted_atoms(ret) if is_float(ret) else set()
                 raw = {a for a in raw if a.startswith("o")}
                 okt = not raw or n == 1
+                # range: the result is an order statistic or the midpoint of two of them, hence within
+                # [min, max] of the observations
+                sn = sorted(all_sorted_nodes(ret), key=lambda t: t[3]) if is_float(ret) else []
+                if n == 1:
+                    inr = ret == obs[0]
+                elif len(sn) == 1:
+                    inr = ret == sn[0]
+                elif len(sn) == 2:
+                    A, B = F.atom("hA"), F.atom("hB")
+                    try:
+                        inr, _ = pit.identical([("mid", F.subst(ret, {sn[0]: A, sn[1]: B}), F.mk("div", F.mk("add", A, B), F.lit(2.0)))], seed=2, points=3, squares=False)
+                    except pit.NeedSymbolic:
+                        inr = False
+                else:
+                    inr = False
+                ctx.ob("R-RANGE", "small-sample:within-min-max:n=%d" % n, qp, fsite, inr,
+                       "returned value %s is %s" % (show_val(ret)[:80], "an order statistic or the midpoint of two: it lies between the smallest and largest observation" if inr
+                                                    else "neither an order statistic nor a midpoint of two"))
                 ctx.ob("R-TAINT", "small-sample:sorted-only:n=%d" % n, qp, fsite, okt,
                        ("returned height %s reads the arrival-order store (%s) instead of the sorted copy [path: %s]" % (show_val(ret)[:80], sorted(raw), pcs))
                        if not okt else "returned height %s derives from the sorted copy only [path: %s]" % (show_val(ret)[:80], pcs),
